@@ -493,7 +493,20 @@ fn emit_fn(cx: &mut Ctx, specs: &mut Specs, em: &mut Emitter, ex: &Extract, file
             let mut pairs: Vec<(String, String)> = vec![];
             for (have, want) in names.iter().zip(pinned.iter()) { if let Some(h) = have { if h != want && want != "_" { pairs.push((h.clone(), want.clone())); } } }
             // only if the new names do not collide with anything else in the function
-            fn has_ident(ts: TokenStream, w: &str) -> bool { ts.into_iter().any(|t| match t { proc_macro2::TokenTree::Ident(i) => i == w, proc_macro2::TokenTree::Group(g) => has_ident(g.stream(), w), _ => false }) }
+            // an identifier used as a VARIABLE: not a field / method name after `.`, not a field label `name: ..` of a struct literal or pattern
+            fn has_ident(ts: TokenStream, w: &str) -> bool {
+                let v: Vec<proc_macro2::TokenTree> = ts.into_iter().collect();
+                for i in 0..v.len() { match &v[i] {
+                    proc_macro2::TokenTree::Ident(id) if id == w => {
+                        let after_dot = i > 0 && matches!(&v[i - 1], proc_macro2::TokenTree::Punct(p) if p.as_char() == '.');
+                        let label = matches!(v.get(i + 1), Some(proc_macro2::TokenTree::Punct(p)) if p.as_char() == ':' && p.spacing() == proc_macro2::Spacing::Alone);
+                        if !after_dot && !label { return true; }
+                    }
+                    proc_macro2::TokenTree::Group(g) => { if has_ident(g.stream(), w) { return true; } }
+                    _ => {}
+                } }
+                false
+            }
             let collide = pairs.iter().any(|(_, w)| has_ident(f.block.to_token_stream(), w) || names.iter().any(|n| n.as_deref() == Some(w.as_str())));
             if !pairs.is_empty() && !collide {
                 let mut sig_ts = f.sig.to_token_stream(); let mut blk_ts = f.block.to_token_stream();
@@ -1043,6 +1056,8 @@ fn emit_lifted(cx: &mut Ctx, specs: &mut Specs, em: &mut Emitter, gens: &[&syn::
             // enclosing generics first (they appear in the capture types the spec gives), then one parameter per generic capture
             let g = { let t = gtxt_all.trim(); if t.len() >= 2 { t[1..t.len() - 1].to_string() } else { String::new() } };
             let mut all: Vec<String> = if g.is_empty() { vec![] } else { vec![g] }; all.extend(tps.clone());
+            // the construction sites printed before guessed the number of `_` holes: now it is known
+            em.fix_ctor_holes(&ctor, tps.len());
             em.raw(&format!("pub fn {}<{}>({}) -> (r: {}){}", ctor, all.join(", "), ps.join(", "), ret_obj, wtxt_all));
         }
         None => em.raw(&format!("pub fn {}{}({}) -> (r: {})", ctor, if tps.is_empty() { String::new() } else { format!("<{}>", tps.join(", ")) }, ps.join(", "), ret_obj)),
@@ -1378,11 +1393,17 @@ fn extract_adapter(cx: &mut Ctx, em: &mut Emitter, ex: &Extract) {
     if !seen { cx.err(format!("lost anchor: closure adapter `impl<F> {} for F` in {}", ex.path, ex.file)); }
 }
 fn rename_ident(ts: TokenStream, from: &str, to: &str) -> TokenStream {
-    ts.into_iter().map(|t| match t {
-        proc_macro2::TokenTree::Ident(i) if i == from => proc_macro2::TokenTree::Ident(proc_macro2::Ident::new(to, i.span())),
-        proc_macro2::TokenTree::Group(g) => { let mut ng = proc_macro2::Group::new(g.delimiter(), rename_ident(g.stream(), from, to)); ng.set_span(g.span()); proc_macro2::TokenTree::Group(ng) }
-        other => other,
-    }).collect()
+    // renames the VARIABLE `from`: a field or method name after `.` is left alone
+    let v: Vec<proc_macro2::TokenTree> = ts.into_iter().collect();
+    let mut out: Vec<proc_macro2::TokenTree> = Vec::with_capacity(v.len());
+    for i in 0..v.len() {
+        match &v[i] {
+            proc_macro2::TokenTree::Ident(id) if id == from && !(i > 0 && matches!(&v[i - 1], proc_macro2::TokenTree::Punct(p) if p.as_char() == '.')) => out.push(proc_macro2::TokenTree::Ident(proc_macro2::Ident::new(to, id.span()))),
+            proc_macro2::TokenTree::Group(g) => { let mut ng = proc_macro2::Group::new(g.delimiter(), rename_ident(g.stream(), from, to)); ng.set_span(g.span()); out.push(proc_macro2::TokenTree::Group(ng)); }
+            other => out.push(other.clone()),
+        }
+    }
+    out.into_iter().collect()
 }
 
 fn main() {
